@@ -17,8 +17,8 @@ ops
   taproot <tx> <i> <outs> <ht> <extflag> <annex> <ext> <pre 0|1>
   fromtx <outs> <tx> <i> <ht> <pre 0|1> <codesep>
   strip <script>            codefrom <script> <k>        annexext <wit/wit/…>      redeem <scriptSig> <spk>
-  psbt.ecdsa <out|.> <redeem> <wscript> <nwu 0|1> <sht|.> <tx> <i> <ht|.>
-  psbt.taproot <sht|.> <tx> <i> <outs> <leafhash> <ht|.> <pre 0|1>
+  psbt.ecdsa <out|.> <redeem> <wscript> <nwu 0|1|2> <sht|.> <tx> <i> <ht|.>     0 witness utxo, 1 non-witness utxo, 2 both
+  psbt.taproot <sht|.> <tx> <i> <outs, `-` = no utxo> <leafhash> <ht|.> <pre 0|1>     1 = the streamed view (precomputed)
   spec.legacy <sc> <tx> <i> <ht>      spec.bip143 <sc> <tx> <i> <ht> <amount>      spec.bip341 <tx> <i> <outs> <ht> <annex> <ext>
       the PREIMAGE BYTES of the specification (Part A), `ok bug` for the legacy SIGHASH_SINGLE constant
   spec.legacy.digest / spec.bip143.digest / spec.bip341.digest (same arguments): the DIGEST of the specification alone
@@ -73,6 +73,20 @@ def tapExt? (extFlag : Int) (ext : Bytes) : Option (Option TapExt) :=
   else if extFlag == 1 ∧ ext.length == 37 then
     some (some ⟨ext.take 32, (ext.getD 32 0).toNat, (ofLE (ext.drop 33) : Nat)⟩)
   else none
+
+/-- the input maps the harness builds for a `psbt.ecdsa` line: one map per transaction input, empty but for input
+    `i`, whose utxo is a witness utxo (`nwu` 0), a previous transaction with the output at the outpoint's index
+    after `index` filler outputs (`nwu` 1), or both (`nwu` 2) -/
+def ecdsaInputs (out : Option TxOut) (redeem wscript : Bytes) (nwu : String) (sht : Option Int) (tx : Tx) (i : Int) :
+    List Impl.PsbtInput :=
+  tx.vin.mapIdx (fun j inp =>
+    if (j : Int) == i then
+      let vout := inp.prev.vout.toNat
+      let prevTx := out.map (fun o => List.replicate vout (⟨1, [0x51]⟩ : TxOut) ++ [o])
+      { witnessUtxo := if nwu == "1" then none else out
+        nonWitnessUtxo := if nwu == "0" then none else prevTx
+        outputIndex := some vout, redeemScript := redeem, witnessScript := wscript, sigHashType := sht }
+    else { Impl.PsbtInput.empty with outputIndex := some inp.prev.vout.toNat })
 
 def handleC09 : List String → Option String
   | ["legacy", sc, tx, i, ht] => do
@@ -148,13 +162,15 @@ def handleC09 : List String → Option String
   | ["psbt.ecdsa", out, redeem, wscript, nwu, sht, tx, i, ht] => do
     let out ← optTok parseOut out; let redeem ← fromHex? redeem; let wscript ← fromHex? wscript
     let sht ← optTok parseInt? sht; let (tx, _) ← parseTx tx; let i ← parseInt? i; let ht ← optTok parseInt? ht
-    pure (render (Impl.ecdsaSigHash sha256 ⟨out, redeem, wscript, nwu == "1", sht⟩ tx i ht))
+    pure (render (Impl.psbtEcdsaSigHash sha256 (ecdsaInputs out redeem wscript nwu sht tx i) tx i ht))
   | ["psbt.taproot", sht, tx, i, outs, leaf, ht, pre] => do
-    let sht ← optTok parseInt? sht; let (tx, _) ← parseTx tx; let i ← parseInt? i; let outs ← parseOuts outs
+    let sht ← optTok parseInt? sht; let (tx, _) ← parseTx tx; let i ← parseInt? i
+    let outs ← listTok "," (fun s => if s == "-" then some none else (parseOut s).map some) outs
     let leaf ← fromHex? leaf; let ht ← optTok parseInt? ht
-    pure <| match pre? pre tx outs with
-      | .error e => "err " ++ e.name
-      | .ok p => render (Impl.taprootSigHash sha256 sht tx i outs leaf ht p)
+    let inputs : List Impl.PsbtInput := outs.mapIdx (fun j o =>
+      ⟨o, none, none, [], [], if (j : Int) == i then sht else none⟩)
+    pure (render (if pre == "1" then Impl.viewTaprootSigHash sha256 inputs tx i leaf ht
+      else Impl.psbtTaprootSigHash sha256 inputs tx i leaf ht))
   | _ => none
 
 def handle (toks : List String) : String :=
